@@ -664,7 +664,7 @@ class SQLGenerator:
         for filter_expr in filters:
             try:
                 parsed = sqlglot.parse_one(filter_expr, dialect=self.dialect)
-                conjuncts = list(parsed.flatten() if isinstance(parsed, exp.And) else [parsed])
+                conjuncts = list(parsed.flatten(unnest=False) if isinstance(parsed, exp.And) else [parsed])
                 flat_parts.extend(c.sql(dialect=self.dialect) for c in conjuncts)
             except Exception:
                 flat_parts.append(filter_expr)
